@@ -225,6 +225,8 @@ def _norm(v):
 
 
 def model_requests(case, impl):
+    if "events" not in impl:      # run_impl escaped (reported by the runner as a harness-level violation)
+        return []
     return [line(ID, "run", _waddrs(case), atom(bool(case["ct"])), [_wev(e) for e in impl["events"]])]
 
 
@@ -244,7 +246,7 @@ def _obs_ok(impl):
 
 
 def spec_requests(case, impl):
-    if impl["errors"] or not _obs_ok(impl):
+    if "events" not in impl or impl["errors"] or not _obs_ok(impl):
         return []
     obs = [[[[atom(o[0])] + o[1:] for o in s[0]], atom(s[3]), atom(s[4]),
             [[x[0], atom(x[1]), atom(x[2])] for x in s[5]]] for s in impl["snaps"]]
